@@ -234,8 +234,8 @@ def run(tier):
         for j, (so, co, tail, style) in enumerate(legs_for(doc, drnd, nlegs)):
             jobs.append(('t%05d.%d' % (n, j), 'CtlDoc', doc, sd * 100003 + n * 7 + j, so, co, tail, style))
     # every small document: (1) one entry b/c, up to three one-statement sub-blocks B/C [W], at most one I / M [N]
-    # comment; (2) four [five] one-statement sub-blocks B/C and one M comment (quick: only M ranges that have a
-    # neighbour on both sides - the ranges at the edges of an entry are in (1) for up to three sub-blocks)
+    # comment; (2) four [five] one-statement sub-blocks B/C and one M comment (quick, and five sub-blocks: only M
+    # ranges that have a neighbour on both sides - ranges at the edges of an entry are in (1) for up to three sub-blocks)
     def inner(st):
         m = st['notes'][0]
         return m['a'] > 0 and m['e'] < st['top']
@@ -243,7 +243,7 @@ def run(tier):
         sweeps = (('CtlDoc_sweep.cfg', lambda st: True), ('CtlDoc_sweep3.cfg', lambda st: len(st['subs']) == 4 and st['notes'] and inner(st)))
     else:
         sweeps = (('CtlDoc_sweep2.cfg', lambda st: True), ('CtlDoc_sweep3.cfg', lambda st: len(st['subs']) == 4 and st['notes']),
-                  ('CtlDoc_sweep4.cfg', lambda st: len(st['subs']) == 5 and st['notes']))
+                  ('CtlDoc_sweep4.cfg', lambda st: len(st['subs']) == 5 and st['notes'] and inner(st)))
     for si, (cfg, keep) in enumerate(sweeps):
         sweep, r = sweep_docs(wd, cfg)
         sweep = [st for st in sweep if keep(st)]
